@@ -26,6 +26,7 @@ func init() {
 		Rule{ID: "R10c", Doc: "only the selected upstream", Floor: 4, Run: r10c},
 		Rule{ID: "R10d", Doc: "loader errors", Floor: 8, Run: r10d},
 		Rule{ID: "R10e", Doc: "strict decoding", Floor: 20, Run: r10e},
+		Rule{ID: "R20b", Doc: "the forwarded question is not recycled under the refresh goroutine (shared with C20)", Floor: 20, Run: r20b},
 	)
 	reg("C17", "Structural necessary conditions of `peers are reached and authenticated as configured`, decided for all paths: "+
 		"(R17a) every field of TlsConfig and UpstreamConfig is read and reaches its effect (InsecureSkipVerify, RootCAs, Certificates, ClientAuth+ClientCAs for verify_client_cert; dial_addr, addr, tls, socket, tag); "+
